@@ -13,7 +13,7 @@
      noempty_t            no empty group *)
 From Coq Require Import List NArith Permutation Sorted.
 From HV Require Import Base.Res Base.Str Model.Dups Gen.C04Codes
-  Proofs.DupsProofs Proofs.DupsCount Proofs.DupsRules Proofs.DupsKey Proofs.DupsSession.
+  Proofs.DupsProofs Proofs.DupsCount Proofs.DupsRules Proofs.DupsKey Proofs.DupsSession Proofs.DupsOnset.
 Import ListNotations.
 
 (* ---- placement rules (tagGroup / topLevelTagGroup / several top-level tags / empty group) ---- *)
@@ -199,6 +199,46 @@ Theorem C04_group_rules_invariant_order_partial : forall m nreq nuniq top top',
                Permutation (validate_duration_tags top) (validate_duration_tags top').
 Proof. exact group_checks_perm_except_dups. Qed.
 Print Assumptions C04_group_rules_invariant_order_partial.
+
+(* ---- the shape rule of Onset / Inset / Offset groups (DefValidator.validate_onset_offset) ----
+   okl top: every tag recognised as a temporal key by its case-folded
+   short_base_tag also is one by its short_base_tag, and every Def / Def-expand
+   name is declared with the right placeholder use (t_def = 0: what the basic
+   phase guarantees before the full-string checks run).
+   Full statement without the second hypothesis is FALSE (refuted below; not
+   reachable through HedString.validate). *)
+Theorem C04_onset_invariant_order : forall top top',
+  PermForest top top' -> okl top = true ->
+  map code_of (validate_onset_offset top) = map code_of (validate_onset_offset top').
+Proof. exact onset_perm. Qed.
+Print Assumptions C04_onset_invariant_order.
+
+Theorem C04_onset_invariant_spelling : forall top top',
+  Respell top top' -> validate_onset_offset top = validate_onset_offset top'.
+Proof. exact onset_respell. Qed.
+Print Assumptions C04_onset_invariant_spelling.
+
+Theorem C04_onset_order_refuted_unresolved_def :
+  PermForest w_onset_1 w_onset_2 /\
+  validate_onset_offset w_onset_1 = [K_ONSET_TAG_OUTSIDE_OF_GROUP; K_ONSET_DEF_UNMATCHED] /\
+  validate_onset_offset w_onset_2 = [K_ONSET_WRONG_NUMBER_GROUPS].
+Proof. exact onset_order_refuted_unresolved_def. Qed.
+Print Assumptions C04_onset_order_refuted_unresolved_def.
+
+(* HedValidator.run_full_string_checks as a whole (repaired code): the multiset of
+   published codes is unchanged by sibling reordering, the list by respelling *)
+Theorem C04_full_string_checks_invariant_order_fixed : forall nreq nuniq top top',
+  PermForest top top' -> forallb wft top = true -> forallb noempty_t top = true -> okl top = true ->
+  exists l l', full_string_checks Fx nreq nuniq top = Ok l /\ full_string_checks Fx nreq nuniq top' = Ok l' /\
+               Permutation (map code_of l) (map code_of l').
+Proof. exact full_checks_perm_fixed. Qed.
+Print Assumptions C04_full_string_checks_invariant_order_fixed.
+
+Theorem C04_full_string_checks_invariant_spelling_fixed : forall nreq nuniq top top',
+  Respell top top' -> forallb wft top = true -> forallb noempty_t top = true ->
+  exists l, full_string_checks Fx nreq nuniq top = Ok l /\ full_string_checks Fx nreq nuniq top' = Ok l.
+Proof. exact full_checks_respell_fixed. Qed.
+Print Assumptions C04_full_string_checks_invariant_spelling_fixed.
 
 (* ---- sessions: rows validated one after the other with one object ----
    The group rules keep no state: the verdict of a row after any history is the
